@@ -180,18 +180,36 @@ def _truncation(col, rule="C16.R4"):
     St = ("sub", SV, sl) if sl is not None else SV
     ZL = npf("zeros_like", St)
     pos = ("cmp", ">", St, ("const", "0"))
-    inv = [e for e in sx.of_kind("store") if e.target == ("sub", ZL, pos)]
-    ok = len(inv) == 1 and inv[0].value == ("op", "/", ("const", "1"), ("sub", St, pos))
+    rc = sx.pnamed("rcond")
+    S0 = ("sub", St, ("const", "0"))
+
+    def is_drop(t):
+        m_ = S.match(t, ("cmp", "<", St, ("op", "*", S.V("rc"), S0)))
+        return m_ is not None and rc in S.alts(m_["rc"])
+
+    def is_keep(t):
+        m_ = S.match(t, ("cmp", ">=", St, ("op", "*", S.V("rc"), S0)))
+        return (m_ is not None and rc in S.alts(m_["rc"])) or (t[:1] == ("uop",) and t[1] in ("~", "not") and is_drop(t[2]))
+
+    # s_inv[M] = 1 / s[M]: M is `s > 0`, possibly and-ed with "not below rcond * largest"
+    inv = [e for e in sx.of_kind("store") if e.target[:1] == ("sub",) and e.target[1] == ZL and e.value is not None and e.value != ("const", "0")]
+    ok, fused = len(inv) == 1, False
+    if ok:
+        M = inv[0].target[2]
+        ok = inv[0].value == ("op", "/", ("const", "1"), ("sub", St, M))
+        for a in S.alts(M):
+            if a == pos:
+                continue
+            if a[:1] == ("op",) and a[1] == "&" and pos in (a[2], a[3]) and is_keep(a[3] if a[2] == pos else a[2]):
+                fused = True
+                continue
+            ok = False
     col.add(rule, "SVD.lstsq#positive-singular-values-inverted", ok, sx.loc(inv[0]) if inv else sx.loc(sx.fn),
             "the inverse singular values are 1/s where s > 0 and 0 elsewhere", S.show(inv[0].value)[:80] if inv else "")
-    rc = sx.pnamed("rcond")
     drop = [e for e in sx.of_kind("store") if e.value == ("const", "0") and e.target[:1] == ("sub",) and e.target[1] == ZL]
-    ok = len(drop) == 1
-    if ok:
-        m = S.match(drop[0].target[2], ("cmp", "<", St, ("op", "*", S.V("rc"), ("sub", St, ("const", "0")))))
-        ok = m is not None and rc in S.alts(m["rc"])
+    ok = (len(drop) == 1 and is_drop(drop[0].target[2])) or (not drop and fused)
     col.add(rule, "SVD.lstsq#rcond-relative-to-largest", ok, sx.loc(drop[0]) if drop else sx.loc(sx.fn),
-            "singular values below rcond times the largest one are dropped", S.show(drop[0].target[2])[:80] if drop else "")
+            "singular values below rcond times the largest one are dropped", S.show(drop[0].target[2])[:80] if drop else ("folded into the inversion mask" if fused else ""))
     before = len(col.obs)
     default_only_when_none(col, rule, sx, "SVD.lstsq", rc)
     default_only_when_none(col, rule, sx, "SVD.lstsq", sx.pnamed("sing_val_cutoff"))
